@@ -19,7 +19,7 @@ KNOWN = os.path.join(VERIF, "known_findings.json")
 
 
 def load_contracts():
-    from . import api, verify, specmodels  # noqa: F401
+    from . import api, verify, specmodels, extmodels  # noqa: F401
     if VERIF not in sys.path:
         sys.path.insert(0, VERIF)
     if getattr(api, "_loaded", False):
